@@ -194,18 +194,18 @@ Definition with_pc (s : state) (p : pcs) : state :=
 Definition with_workers (s : state) (ws : list worker) : state :=
   mkS (pc s) ws (backlog s) (stop s) (next_id s) (finished s) (accepted s) (entered s).
 
+Definition is_pdone (p : pcs) : bool := match p with PDone => true | _ => false end.
+
 (* ---- the step function: None = the event cannot happen in this state ---- *)
 Definition step (cfg : config) (s : state) (e : event) : option (state * list obs) :=
   match e with
   | EConnect l =>
-      match pc s with
-      | PDone => None                               (* listening sockets are closed *)
-      | _ => if (l <? n_listen cfg)%N then
-               Some (mkS (pc s) (workers s) (backlog s ++ [mkB (next_id s) l CIdle]) (stop s)
-                         (N.succ (next_id s)) (finished s) (accepted s) (entered s),
-                     [ONewConn (next_id s)])
-             else None
-      end
+      if is_pdone (pc s) then None                  (* listening sockets are closed *)
+      else if (l <? n_listen cfg)%N then
+        Some (mkS (pc s) (workers s) (backlog s ++ [mkB (next_id s) l CIdle]) (stop s)
+                  (N.succ (next_id s)) (finished s) (accepted s) (entered s),
+              [ONewConn (next_id s)])
+      else None
   | ESend c m =>
       match find_b c (backlog s) with
       | Some b => match b_cl b with
